@@ -2,10 +2,14 @@ package envelope
 
 import (
 	"crypto/sha256"
+	"fmt"
 	"hash"
 	"io"
 
 	"github.com/ipfs/go-cid"
+	"github.com/ipld/go-ipld-prime"
+	"github.com/ipld/go-ipld-prime/codec/dagcbor"
+	"github.com/ipld/go-ipld-prime/datamodel"
 	"github.com/multiformats/go-multibase"
 	"github.com/multiformats/go-multicodec"
 	"github.com/multiformats/go-multihash"
@@ -121,4 +125,36 @@ func cidFromHash(hash hash.Hash) (cid.Cid, error) {
 	}
 
 	return cid.NewCidV1(uint64(multicodec.DagCbor), mh), nil
+}
+
+// DecodeSealed reads a sealed (DAG-CBOR) envelope and returns its IPLD representation and its CID.
+//
+// The bytes have to be the canonical DAG-CBOR encoding, the one that sealing produces: the CID is the
+// identity of a token, so the same content must not be acceptable under several byte strings.
+func DecodeSealed(r io.Reader) (datamodel.Node, cid.Cid, error) {
+	cidReader := NewCIDReader(r)
+
+	node, err := ipld.DecodeStreaming(cidReader, dagcbor.Decode)
+	if err != nil {
+		return nil, cid.Undef, err
+	}
+
+	id, err := cidReader.CID()
+	if err != nil {
+		return nil, cid.Undef, err
+	}
+
+	canonical, err := ipld.Encode(node, dagcbor.Encode)
+	if err != nil {
+		return nil, cid.Undef, err
+	}
+	canonicalID, err := CIDFromBytes(canonical)
+	if err != nil {
+		return nil, cid.Undef, err
+	}
+	if !canonicalID.Equals(id) {
+		return nil, cid.Undef, fmt.Errorf("the sealed token is not in canonical DAG-CBOR form")
+	}
+
+	return node, id, nil
 }
